@@ -261,3 +261,6 @@ def run(chk, repo):
            "closedSwitch`: with raw mask values two active switches on "
            "different bits compare unequal and a contradictory reading "
            "counts as 'in position'")
+
+# added rules (appended to the explanation the evidence file carries)
+EXPLANATION += (" " + 'Added during the build (DESIGN.md 4.31, second table): reset() restarts the timer from the clock even when other objects hold stale time stamps; (R27.6) every path through SyncGroup.update_devices runs the devices (shared with C30).')
